@@ -79,9 +79,14 @@ func ConditionalRetryByExponentialBackoff(f func() error, cond func() bool, maxR
 
 		delay := float64(baseDelay) * math.Pow(multiplier, float64(retry))
 		jitter := (rand.Float64() - 0.5) * randomization * float64(baseDelay)
-		sleepDuration := time.Duration(delay + jitter)
+		sleep := delay + jitter
+		if math.IsNaN(sleep) {
+			sleep = 0 // 0 * +Inf：baseDelay 为 0 且 math.Pow 溢出时，乘积仍然为 0
+		}
+		sleepDuration := time.Duration(sleep)
 
-		if sleepDuration > maxDelay {
+		// 先以 float64 比较：超出 int64 范围的 float64 转换为 Duration 会得到负值
+		if sleep >= float64(maxDelay) || sleepDuration > maxDelay {
 			sleepDuration = maxDelay
 		}
 
